@@ -25,6 +25,7 @@ ASSUMPTIONS = [
     "Paths are resolved lexically (abspath), as the code documents; a symlinked job directory belongs to the project "
     "whose workspace holds the link.",
 ]
+MANIFEST = {"technique": 'runtime monitoring: generator bookkeeping as oracle for discovery; FS-call monitor (P-readonly) around init_project', "engine": 'fs-call monitor (audit hook)'}
 TIME_CAP = {"quick": 60, "thorough": 1200}
 
 
